@@ -56,10 +56,12 @@ pub fn run_case(id: &str, r: &mut Rng, out: &mut String) {
         files_case(id, r, &root, &home, out);
     } else if k < 65 {
         summary_case(id, r, &root, &home, out);
-    } else if k < 85 {
+    } else if k < 80 {
         symbase_case(id, r, &root, &home, out);
-    } else {
+    } else if k < 90 {
         spelling_case(id, r, &root, &home, out);
+    } else {
+        options_case(id, r, &root, &home, out);
     }
     let _ = std::fs::remove_dir_all(&root);
 }
@@ -321,6 +323,98 @@ fn spelling_case(id: &str, r: &mut Rng, root: &Path, home: &Path, out: &mut Stri
         out.push_str(&format!("impl differ exit={}/{} {}\n", rc1, rc2, oneline(&first_diff_line(&o1.to_lowercase(), &o2.to_lowercase()))));
     }
     out.push_str(&format!("repro {}\nend\n", oneline(&format!("acb canon.csv {}   versus   acb other.csv {}\n--- canon.csv\n{}--- other.csv\n{}", extra.join(" "), extra.join(" "), canon, other))));
+}
+
+/// kind=options (C01, C06, C17): `acb [--print-full-values] [--total-costs] [--date-fmt F] file` as a
+/// child process prints what the library entry point prints when it is given the same options —
+/// the option handling of the front end (src/cmd.rs) adds nothing and loses nothing.
+fn options_case(id: &str, r: &mut Rng, root: &Path, home: &Path, out: &mut String) {
+    use acb::app::outfmt::text::TextWriter;
+    use acb::app::run_acb_app_to_writer;
+    use acb::portfolio::io::tx_csv::TxCsvParseOptions;
+    use acb::util::date::parse_dyn_date_format;
+    let c = app::gen_case(r);
+    if c.rows.is_empty() {
+        return;
+    }
+    let full = r.chance(50);
+    let costs = r.chance(50);
+    let slash = r.chance(35);
+    let mut csv = app::txs_to_csv(&c.rows);
+    if slash {
+        // dates typed as 2020/01/05, announced with --date-fmt
+        let mut t = String::with_capacity(csv.len());
+        let b: Vec<char> = csv.chars().collect();
+        let mut i = 0;
+        while i < b.len() {
+            if i + 10 <= b.len()
+                && b[i..i + 4].iter().all(|ch| ch.is_ascii_digit())
+                && b[i + 4] == '-'
+                && b[i + 5..i + 7].iter().all(|ch| ch.is_ascii_digit())
+                && b[i + 7] == '-'
+                && b[i + 8..i + 10].iter().all(|ch| ch.is_ascii_digit())
+            {
+                for (k, ch) in b[i..i + 10].iter().enumerate() {
+                    t.push(if k == 4 || k == 7 { '/' } else { *ch });
+                }
+                i += 10;
+            } else {
+                t.push(b[i]);
+                i += 1;
+            }
+        }
+        csv = t;
+    }
+    let _ = std::fs::write(root.join("in.csv"), &csv);
+    let mut args: Vec<String> = vec!["in.csv".into()];
+    if full {
+        args.push("--print-full-values".into());
+    }
+    if costs {
+        args.push("--total-costs".into());
+    }
+    let fmt = "[year]/[month]/[day]";
+    if slash {
+        args.push("--date-fmt".into());
+        args.push(fmt.into());
+    }
+    let (rc, stdout) = run_acb(home, root, &args);
+    let readers = vec![DescribedReader::from_string("in.csv".to_string(), csv.clone())];
+    let libout = catch(move || {
+        let (wh, sb) = WriteHandle::string_buff_write_handle();
+        let (eh, _eb) = WriteHandle::string_buff_write_handle();
+        let mut writer = TextWriter::new(wh);
+        let parse_opts = TxCsvParseOptions { date_format: if slash { Some(parse_dyn_date_format(fmt).unwrap()) } else { None } };
+        let res = async_std::task::block_on(run_acb_app_to_writer(
+            &mut writer,
+            readers,
+            HashMap::new(),
+            &parse_opts,
+            full,
+            costs,
+            app::rate_loader(),
+            eh,
+        ));
+        let s = sb.borrow().as_str().to_string();
+        (res.is_ok(), s)
+    });
+    out.push_str(&format!("case {} cli kind=options full={} costs={} datefmt={} rows={}\n", id, full as u8, costs as u8, slash as u8, c.rows.len()));
+    match libout {
+        Ok((ok, text)) => {
+            let (stdout, text) = (stdout.to_lowercase(), text.to_lowercase());
+            let rest_ok = stdout.starts_with(&text) && {
+                let rest = stdout[text.len()..].trim();
+                rest.is_empty() || rest.starts_with("[!] there are errors for the following securities")
+            };
+            if rest_ok && (ok == (rc == 0)) {
+                out.push_str(&format!("impl same exit={} bytes={}\n", rc, stdout.len()));
+            } else {
+                out.push_str(&format!("impl differ exit={}/{} {}\n", rc, if ok { 0 } else { 1 }, oneline(&first_diff_line(&stdout, &text))));
+            }
+        }
+        Err(_) => out.push_str(&format!("impl skipped exit={}\n", rc)),
+    }
+    out.push_str(&format!("repro {}\nend\n", oneline(&format!("acb {}\n--- in.csv\n{}", args.iter().map(|a| format!("'{}'", a)).collect::<Vec<_>>().join(" "), csv))));
 }
 
 pub fn cleanup() {
